@@ -255,6 +255,45 @@ def run(ctx):
     report_table(ctx, "R07-a")
     new_line_table(ctx, "R07-b")
     track_table(ctx, "R07-c")
+    width_accounting(ctx, "R07-e")
     # with R06-b: operational ⇒ exit 1
     import c06
     c06.exit_code_tables(ctx, "R07-d")
+
+
+def width_accounting(ctx, rid):
+    """R07-e: the width that new_line compares is the per-character count maintained by FormatLines::char"""
+    p, r = ctx.p, ctx.r
+    r.rule(rid, "FormatLines::char adds tab_spaces for a tab and 1 for any other char to line_len on every path; new_line "
+                "compares that same line_len with max_width and reports it in LineOverflow(line_len, max_width)")
+    f = p.named("char", within="FormatLines")
+    if f is None:
+        r.undecidable(rid, "FormatLines::char not found")
+        return
+    paths = explore(f, pure=lambda c: c.name.endswith("Config::tab_spaces") or c.name.endswith("is_whitespace")
+                    or c.name.endswith("is_string"))
+    r.paths(rid, len(paths))
+    n = 0
+    for path in paths:
+        if path.end != "ret":
+            continue
+        tab = None
+        for k, v in path.decisions:
+            if k.startswith("(arg2 Eq ") and isinstance(v, bool):
+                tab = v
+                is_tab_lit = "9" in k or "\\t" in k or "'\t'" in k
+        st = [e for e in path.effects if e.kind == "store" and e.name == "arg1.line_len"]
+        ok = False
+        got = [vkey(e.args[0]) for e in st]
+        if len(st) == 1 and tab is not None:
+            val = got[0].replace(" ", "")
+            if tab:
+                ok = val.startswith("(arg1.line_lenAdd") and "Config::tab_spaces(arg1.config)" in val
+            else:
+                ok = val == "(arg1.line_lenAdd1)"
+        n += 1
+        r.instance(rid, "char[tab=%s]" % tab, "ok" if ok else "violation", "%s:%d" % (f.file, f.line), str(got))
+        if not ok:
+            r.violation(rid, "FormatLines::char[tab=%s]: line_len update %s" % (tab, got),
+                        "the line width is no longer counted as tab_spaces per tab and 1 per other character", ["%s:%d" % (f.file, f.line)])
+    r.floor(rid, n, 2, "paths of FormatLines::char")
